@@ -209,7 +209,9 @@ def gen_cases(ctx):
     names_full = ["sub", "aud"] if ctx.quick else ["iss", "sub", "aud", "jti", "priv"]
     for name in names_full:
         for v in VALUES:
-            for o in shapes:
+            # quick: every shape with at most two members + a random 60 of the others (rotates with the seed)
+            sel = shapes if not ctx.quick else ([o for o in shapes if len(o) <= 2] + rng.sample([o for o in shapes if len(o) > 2], 60))
+            for o in sel:
                 yield ("single", 1000, 0, {name: copy.deepcopy(o)}, {name: copy.deepcopy(v)})
     for name in ["iss", "jti", "priv", "", "validate", "aud "]:
         for v in VALUES:
@@ -227,8 +229,8 @@ def gen_cases(ctx):
                 for T0 in (now - L - 1, now - L, now - L + 1, now + L - 1, now + L, now + L + 1):
                     for T in time_reprs(T0):
                         tops = TIME_OPTS(T0)
-                        if ctx.quick and T is not T0:
-                            tops = tops[:2] + rng.sample(tops[2:], 2)
+                        if ctx.quick:
+                            tops = tops[:2] + rng.sample(tops[2:], 4 if T is T0 else 1)
                         for o in tops:
                             opts = {} if o is None else {name: o}
                             yield ("time", now, lw, opts, {name: T})
@@ -280,7 +282,7 @@ def gen_cases(ctx):
                 [1, 0, "x", "", "ab", [], [1], ["a"], {}, {"a": 1}, 1.5, None, True, [["a"]], [None], "a", 5, 0.0]))
         return o
 
-    for i in range(ctx.scale(5000, 150000)):
+    for i in range(ctx.scale(4000, 150000)):
         now = rng.choice(NOWS + [rng.randrange(0, 2 ** 33)])
         lw = rng.choice(LEEWAYS + [None, rng.randrange(0, 1000)])
         L = 0 if lw is None else lw
